@@ -7,6 +7,7 @@ import (
 	"seehuhn.de/go/pdf/font/cff"
 	"seehuhn.de/go/pdf/font/cmap"
 	"seehuhn.de/go/pdf/font/encoding/cidenc"
+	"seehuhn.de/go/pdf/font/extended"
 	"seehuhn.de/go/pdf/font/gofont"
 	"seehuhn.de/go/pdf/font/opentype"
 	"seehuhn.de/go/pdf/font/standard"
@@ -164,7 +165,22 @@ func init() {
 			Make: func() (font.Layouter, error) { return sf.New() }})
 	}
 
-	if len(kinds) != 18+72+2+6+14 {
+	// the 14 fonts of font/extended (embedded Type 1 with full AFM data; the
+	// Nimbus Roman and Sans faces have the ligature chain f+f -> ff, ff+i -> ffi)
+	if len(extended.All) != 14 {
+		panic("extended.All changed")
+	}
+	extNames := []string{"D050000L", "NimbusMonoPS-Bold", "NimbusMonoPS-BoldItalic", "NimbusMonoPS-Italic",
+		"NimbusMonoPS-Regular", "NimbusRoman-Bold", "NimbusRoman-BoldItalic", "NimbusRoman-Italic",
+		"NimbusRoman-Regular", "NimbusSans-Bold", "NimbusSans-BoldItalic", "NimbusSans-Italic",
+		"NimbusSans-Regular", "StandardSymbolsPS"}
+	for i, ef := range extended.All {
+		ef := ef
+		addKind("extended", fontKind{Label: "ext:" + extNames[i], Family: "type1", Enc: encSimple,
+			Make: func() (font.Layouter, error) { return ef.New() }})
+	}
+
+	if len(kinds) != 18+72+2+6+14+14 {
 		panic(fmt.Sprintf("catalogue has %d entries", len(kinds)))
 	}
 	fillByFamily()
